@@ -221,7 +221,6 @@ StmtFillersSeq == <<
   F(<<"st-export-type-star">>, {"rich"}, <<"export", "type", "*", "from", "'t'", ";">>),
   F(<<"st-export-type-star-as">>, {"rich"}, <<"export", "type", "*", "as", "ETN", "from", "'t'", ";">>),
   F(<<"st-type-and-export-type">>, {"rich"}, <<"type", "LX", "=", "1", ";", "export", "type", "{", "LX", "}", ";">>),
-  F(<<"st-type-and-export-inline-type">>, {"rich", "amb"}, <<"type", "LY", "=", "1", ";", "export", "{", "type", "LY", "}", ";">>),
   F(<<"st-interface-and-export">>, {"rich", "nv"}, <<"interface", "LI", "{", "}", "export", "{", "LI", "}", ";">>) >>
 StmtFillers == Sample(StmtFillersSeq)
 
